@@ -1,9 +1,11 @@
 (* Props/C08.v — Protocol bookkeeping is exact, durable and crash-consistent.
-   PARTIAL at the level of theorems: the durability round trip (what a rebuilt state machine presents to its policy
-   after the three context writes) and the saturating failure counter are proved below; the counting rules
-   (which outcomes count, which set last-contact), "committed when idle" and crash consistency at every interaction are
-   decided by trace equality between model and implementation on the storage / policy-argument / event projection
-   (proj_c08) and by the harness's crash-and-rebuild runs at every environment interaction. *)
+   Three parts.  (1) The counting rules, "what the policy is shown" and "written and committed right after the result"
+   are the monitor theorem C08_bookkeeping_monitor_accepts_every_model_trace.  (2) Durability: what a rebuilt state machine presents
+   after the context writes is exactly what was written, times at microsecond precision (C08_rebuilt_state_is_last_persisted).
+   (3) NOT a theorem: crash at every interaction.  Atomicity of commit is the Storage trait's contract (an assumption about
+   the embedder's storage, recorded in the trusted base); given it, "never a mixture of two commits" follows from (1)
+   (every write block ends in a commit before anything else happens) and (2).  The persist after a ping (as opposed
+   to after a check) is compared by trace equality only. *)
 Require Import Verif.Model.Time Verif.Base.Bytes Verif.Model.Env Verif.Model.SM Verif.Proofs.SMPure Verif.Proofs.TimeFacts.
 Open Scope Z_scope.
 
@@ -38,3 +40,56 @@ Example C08_ex_defensive_load :
 Proof. vm_compute. reflexivity. Qed.
 
 Print Assumptions C08_rebuilt_state_is_last_persisted.
+
+(* ---- the bookkeeping monitor (Model/Monitors.v step8) accepts every trace of the model ----
+   step8 keeps the two values as they must be, starting from what the stored context loads to:
+     - the failure count: after a check, 0 if its result is a success, else the saturating successor (every failed
+       check counts: request errors, unparseable body, unusable plan); after a ping, 0 if it got a usable document, else
+       the saturating successor;
+     - the last-contact time: the clock reading taken at the end of a check whose result is a success, a parser error
+       or an install-plan error, or taken after a ping that got a usable document; unchanged by every other outcome
+       (transport, HTTP status, request construction, failed authentication, failed ping).
+   It demands: the schedule and protocol state announced just before each result carry exactly these values; every
+   protocol state announced in between carries the old count; the policy (next-time and check-allowed questions) is
+   always shown exactly these values; and immediately after a result the last-contact time (microseconds, or its
+   removal), the poll interval, the count (removed when zero) and the apps are written and committed before
+   anything else happens.  (pw8: when no ping can be put on the wire at all - invalid service URL or header value -
+   failed pings leave no trace and the count shown to the policy is taken on trust.) *)
+Require Import Verif.Model.Monitors Verif.Proofs.Monitor Verif.Proofs.C08Proof Verif.Model.Proto Verif.Model.Request.
+
+Theorem C08_bookkeeping_monitor_accepts_every_model_trace :
+  forall ep cfg url cup apps e, e_trace e = [] ->
+    accepts step8 (init8 cfg url cup apps (e_store e)) (run_case ep cfg url cup apps e) = true.
+Proof. exact model_accepted_c08. Qed.
+
+Section Examples.
+  Let w0 : wire := {| w_uri := []; w_headers := []; w_body := [];
+                      w_sum := {| ws_source := ScheduledTask; ws_session := None; ws_request := None; ws_apps := [] |} |}.
+  Let c1 : ctime := {| wall := 5000; mono := 7 |}.
+  Let q0 : q8 := {| cup8 := false; pw8 := true; in8 := false; fails8 := 2; lu8 := None; clk8 := None; tsched8 := None; tps8 := None;
+                    pfail8 := None; await8 := false; todo8 := [] |}.
+  Let sc (lu : option pct) : sched := {| s_last_update := lu; s_last_check := None; s_next := None |}.
+  Let ps (f : Z) : Env.pstate := {| ps_poll := None; ps_fails := f; ps_proxied := 0 |}.
+  Let chk := [AEvent (EvState (CheckingForUpdates ScheduledTask)); AClock c1; AHttp w0 (HErr TTransport)].
+  Let fail_res : check_err + list app_response := inl (CEOmahaRequest (REHttpTransport TTransport)).
+  (* a failed check: count 2 -> 3, last contact untouched, then written and committed *)
+  Example C08_monitor_accepts :
+    accepts step8 q0 (chk ++ [AEvent (EvSchedule (sc None)); AEvent (EvProtocol (ps 3)); AEvent (EvResult fail_res);
+                              AStore (SRemove K_LAST_UPDATE_TIME) true; AStore (SRemove K_POLL_INTERVAL) true;
+                              AStore (SSetInt K_FAILED_CHECKS 3) true; AStore SCommit true;
+                              APolicy (QNextTime [] (sc None) (ps 3)) (PTiming default_timing)]) = true.
+  Proof. vm_compute. reflexivity. Qed.
+  (* count not incremented; last contact touched by a transport failure; a parser error that does not touch it;
+     the count not written; the policy shown a stale count *)
+  Example C08_monitor_rejects :
+    accepts step8 q0 (chk ++ [AEvent (EvSchedule (sc None)); AEvent (EvProtocol (ps 2)); AEvent (EvResult fail_res)]) = false
+    /\ accepts step8 q0 (chk ++ [AEvent (EvSchedule (sc (Some (PComplex c1)))); AEvent (EvProtocol (ps 3)); AEvent (EvResult fail_res)]) = false
+    /\ accepts step8 q0 (chk ++ [AEvent (EvSchedule (sc None)); AEvent (EvProtocol (ps 3)); AEvent (EvResult (inl CEInstallPlan))]) = false
+    /\ accepts step8 q0 (chk ++ [AEvent (EvSchedule (sc None)); AEvent (EvProtocol (ps 3)); AEvent (EvResult fail_res);
+                                 AStore (SRemove K_LAST_UPDATE_TIME) true; AStore (SRemove K_POLL_INTERVAL) true;
+                                 AStore (SSetInt K_FAILED_CHECKS 2) true]) = false
+    /\ accepts step8 q0 [APolicy (QNextTime [] (sc None) (ps 1)) (PTiming default_timing)] = false.
+  Proof. vm_compute. repeat split; reflexivity. Qed.
+End Examples.
+
+Print Assumptions C08_bookkeeping_monitor_accepts_every_model_trace.
